@@ -1,3 +1,9 @@
     // ghost accessors used by the contracts (spec only)
     spec fn dm(&self) -> DM { dmj(self.sd_jwt_engine.hash_to_decoded_disclosure@) }
     spec fn seen(&self) -> SS { vec_str_set(self.duplicate_hash_check@) }
+    // everything except the scratch fields duplicate_hash_check / verified_claims
+    spec fn frame_eq(&self, o: &Self) -> bool {
+        self.sd_jwt_engine == o.sd_jwt_engine && self.sd_jwt_payload == o.sd_jwt_payload
+            && self._holder_public_key_payload == o._holder_public_key_payload && self.cb_get_issuer_key == o.cb_get_issuer_key
+            && self.verified_claims == o.verified_claims
+    }
